@@ -53,13 +53,20 @@ def all_ids(x, acc):
 def _run(rec):
     from harness.real import Subject
     from harness.terms import abstract_value, concretize_value
-    _, T, v, wire_exp, shared_exp, any_paths = rec
+    _, T, v, wire_exp, shared_exp, any_paths = rec[:6]
+    prior, dterm = (rec[6], rec[7]) if len(rec) > 6 else ("fresh", [])
     out = {"n": 1, "mism": [], "rec": rec}
     subj = Subject(T)
     try:
         x = concretize_value(v, subj.reg)
         before = copy.deepcopy(x)
-        w = subj.encode_py(x)
+        if prior == "fresh":
+            w = subj.encode_py(x)
+        else:
+            # the same dialect object is first used through the binary format, then through to_dict
+            D = subj.dialect_for(dterm)
+            (x.to_msgpack if prior == "msgpack" else x.to_jsonb)(dialect=D)
+            w = x.to_dict(dialect=D)
         if x != before:
             out["mism"].append({"clause": "argument-mutated", "T": T, "input": v, "expected": "argument unchanged", "actual": abstract_value(x, subj.reg)})
         w_act = abstract_value(w, subj.reg)
@@ -75,7 +82,7 @@ def _run(rec):
         if exp - real:
             out["mism"].append({"clause": "promised-sharing-missing", "T": T, "input": v, "expected": sorted(map(str, exp)), "actual": sorted(map(str, real))})
         # deserialization: no typed container shared with the input, input not mutated
-        if '"no_copy"' not in json.dumps(T) and '"any"' not in json.dumps(T):
+        if '"no_copy"' not in json.dumps(T) and '"any"' not in json.dumps(T) and prior == "fresh":
             d = copy.deepcopy(w)
             d0 = copy.deepcopy(d)
             y = subj.decode_py(d)
